@@ -36,7 +36,7 @@ SHAPES = {
     'match_all': [('str', 'pat'), ('str', 'pat', 'flags')],
     'pretty': [('any',), ('cont', 'sep'), ('int',), ('num', 'sep')],
     'keys': [('dict',)], 'values': [('dict',)], 'items': [('dict',)],
-    'sum': [('listnum',), ('num',), ('list',)],
+    'sum': [('listnum',), ('num',), ('list',), ('nested',)],
     'get': [('dict', 'key'), ('dict', 'key', 'any')],
     '__getitem__': [('list', 'idx'), ('dict', 'key'), ('str', 'idx'), ('list', 'slice'), ('str', 'slice'), ('tuple', 'idx')],
     '__delitem__': [('list', 'idx'), ('dict', 'key')],
